@@ -531,10 +531,13 @@ class Spec:
             unknown = any(self.ns[c].get(norm(n), ('unknown',))[0] == 'unknown' for n in names)
             for n in names:
                 self.ns[c].pop(norm(n), None)
-            if code != 0 and not unknown:
-                self.out.fail({'property': 'C20', 'culprit': 'remove-operation', 'clause': 'remove-raises',
-                               'qualifiers': ['bulk-remove'] + (['keyword-name'] if any(keyword.iskeyword(n) for n in names) else [])},
-                              f'clearing operations {names} raised (outcome code {code})', case)
+            if code != 0:
+                if not unknown:
+                    self.out.fail({'property': 'C20', 'culprit': 'remove-operation', 'clause': 'remove-raises',
+                                   'qualifiers': ['bulk-remove'] + (['keyword-name'] if any(keyword.iskeyword(n) for n in names) else [])},
+                                  f'clearing operations {names} raised (outcome code {code})', case)
+                # (raised in the middle, e.g. over an operation that never got a method: which methods are left is
+                #  not the property's business)
                 for n in names:
                     self.ns[c][norm(n)] = ('unknown',)
         elif k == 'attach':
